@@ -10,7 +10,8 @@ class C12(Prop):
     rule = ("sequences of the five Match* entry points issued through 1-3 shared Config handles (and the package "
             "defaults) with random option sets (Dir, Filename, Ext, Update), all creating; the oracle recomputes every "
             "call's location from the Config's options alone (independent reading of the naming rule) and compares it with "
-            "the file actually written; distinct = distinct op list; non-trivial = at least two different entry points "
+            "the file actually written, and every JSON entry's text from a Config freshly built from the same options (JSON() "
+            "options with empty / tab / wide indentation included: the stored text may not depend on earlier calls); distinct = distinct op list; non-trivial = at least two different entry points "
             "went through one handle")
     outside_model = "Go pointer aliasing inside option closures and concurrent use (race detector) are runtime matters"
     trusted = []
@@ -24,7 +25,9 @@ class C12(Prop):
             nh = r.range(1, 3)
             for h in range(nh):
                 ops.append(G.op_newconfig(dir=r.choice([b"d1", b"d2", b"def"]), fn=r.choice([None, None, b"shared", b"other"]),
-                                          ext=r.choice([None, None, b".txt", b".json"]), upd=r.choice([None, None, True])))
+                                          ext=r.choice([None, None, b".txt", b".json"]), upd=r.choice([None, None, True]),
+                                          js=r.choice([None, None, {"width": 0, "indent": "", "sortKeys": True}, {"width": 0, "indent": "", "sortKeys": False},
+                                                       {"width": 40, "indent": "    ", "sortKeys": True}, {"width": 0, "indent": "\t", "sortKeys": False}])))
             tests = r.shuffle(G.TEST_NAMES)[: r.range(1, 3)]
             seqs = []
             for t in tests:
@@ -53,6 +56,10 @@ class C12(Prop):
         cfgs = []
         k_of = {}
         fails = []
+        fss = [r for r in results if r[0] == "fs"]
+        final = fss[-1][2] if fss and not any(n == "newprocess" for n, _ in ops) else None
+        # files some call UPDATED (shared Filename + Update(true)) no longer hold what earlier calls stored
+        rewritten = set(x.split(":", 1)[1] for r_ in obs if r_[2].get("outcome") == "updated" for x in r_[2]["writes"].split(",") if x != "-")
         for (name, kv), (_, idx, o) in zip(op_with_obs, obs):
             if name == "newconfig":
                 cfgs.append(kv)
@@ -80,6 +87,13 @@ class C12(Prop):
                     ok = (len(got) == 1 and exp.match(got[0])) if hasattr(exp, "match") else got == [exp]
                     if not ok:
                         fails.append({"msg": "obs %d (%s via handle %d): wrote %s, options say %s" % (idx, api, h, got, getattr(exp, 'pattern', exp))})
+                    # the text stored by a JSON call is the rendering under the handle's OPTIONS (pre = rendering with a
+                    # Config freshly built from the same options): it may not depend on what went through the handle before
+                    if api in ("json", "standjson") and o["outcome"] == "added" and kv.get("pre", "").startswith("ok:") and final is not None and len(w) == 1 and w[0] not in rewritten:
+                        content = final.get(w[0])
+                        if content is not None and unhx(kv["pre"][3:]) not in unhx(content):
+                            fails.append({"msg": "obs %d (%s via handle %d): the stored text is not the rendering its Config's options give: %r"
+                                                 % (idx, api, h, unhx(kv["pre"][3:])[:80])})
         return fails
 
     def nontrivial(self, case, ops, results):
